@@ -168,6 +168,7 @@ Definition inc_spec (pre : bool) (frs : list (bool * frame)) (chunks : list byte
   inc_spec_from pre frs 0 false chunks.
 
 (* ---------- known deviations of the unchanged code (open findings), as decidable classes ---------- *)
+Definition is_some_b {A} (o : option A) : bool := match o with Some _ => true | None => false end.
 (* K1: the first SETTINGS frame carries no parameter: the code conflates "empty SETTINGS" with
    "no SETTINGS frame" and never reports a fingerprint *)
 Definition k_empty_settings (frames : list frame) : bool :=
@@ -175,25 +176,24 @@ Definition k_empty_settings (frames : list frame) : bool :=
   | Some f => Nat.ltb (length (f_payload f)) 6
   | None => false
   end.
-(* K2: the first HEADERS frame has the PADDED or PRIORITY flag: akamai_extractor decodes the raw
-   payload (pad length / priority fields / padding included) *)
-Definition k_headers_flags (frames : list frame) : bool :=
+(* K2: the first header block is not complete in the frames seen (HEADERS without END_HEADERS whose
+   CONTINUATION frames are missing, not yet received, or interrupted by another frame): the code
+   decodes the fragments collected so far and reports their pseudo-headers *)
+Definition k_incomplete_block (frames : list frame) : bool :=
   match first_headers frames with
-  | Some (f, _) => flag f PADDED_bit || flag f PRIORITY_bit
+  | Some (f, r) =>
+      match headers_block_fragment f with
+      | Some _ => negb (flag f END_HEADERS_bit) && negb (is_some_b (continuation (f_stream f) r))
+      | None => false
+      end
   | None => false
   end.
-(* K3: the first header block continues in CONTINUATION frames: only the first fragment is decoded *)
-Definition k_continued (frames : list frame) : bool :=
-  match first_headers frames with
-  | Some (f, _) => negb (flag f END_HEADERS_bit)
-  | None => false
-  end.
-(* K4: a pseudo-header field whose name or value is not UTF-8 is dropped from the order *)
+(* K3: a pseudo-header field whose name or value is not UTF-8 is dropped from the order *)
 Definition k_nonutf8 (frames : list frame) : bool :=
   existsb (fun h => negb (utf8_valid (fst h) && utf8_valid (snd h)))
           (filter is_pseudo (first_block_headers frames)).
 Definition known (frames : list frame) : bool :=
-  k_empty_settings frames || k_headers_flags frames || k_continued frames || k_nonutf8 frames.
+  k_empty_settings frames || k_incomplete_block frames || k_nonutf8 frames.
 
 (* ---------- vocabulary of the incremental theorems ---------- *)
 (* one-shot results on the successive prefixes  buf ++ c1,  buf ++ c1 ++ c2, ... *)
@@ -211,3 +211,18 @@ Fixpoint report_first (l : list (outcome (option bytes))) : list add_result :=
   | Panicked :: r => RPanic :: report_first r
   end.
 Definition to_add (o : option text) : add_result := match o with Some t => RSome t | None => RNone end.
+
+(* the frame lists a receiver has seen at the chunk boundaries, up to and including the first one at
+   which a fingerprint exists (what the incremental theorem needs to be in the format's domain) *)
+Fixpoint boundaries (pre : bool) (frs : list (bool * frame)) (received : N) (chunks : list bytes)
+  : list (list frame) :=
+  match chunks with
+  | [] => []
+  | c :: r =>
+      let received := received + blen c in
+      let vis := visible_at pre frs received in
+      match fp vis with
+      | Some _ => [vis]
+      | None => vis :: boundaries pre frs received r
+      end
+  end.
